@@ -19,6 +19,10 @@ CLAIMED = {
    text="A specification of the October 2021 lexical grammar over code points (GqlModel/Lexer/Spec.lean, independent of the model) is compared on every run with the real lexer AND the model: every string of ≤4/≤5 symbols over 19 lexically significant symbols, every block-string body of ≤6/≤7 symbols over two 6-symbol alphabets, raw bytes, corpus, mutations, random inputs (kinds, extents in characters, semantic values, failure exactly where the grammar admits no token). Theorems: blockStringValue = BlockStringValue() of the spec on every raw value the lexer passes (C03_blockstring_eq_spec), punctuator table = spec (C03_punctuators_eq_spec), number look-ahead restriction (C03_number_lookahead, C03_lookahead_is_spec), maximal munch for names (C03_name_maximal, C03_name_class_is_spec), ignored runs (C03_ignored_only_ws). The full model≈spec equivalence for strings/comments/non-ASCII is exploration-backed only. One recorded known finding (block string closed by the last three quotes of a longer run)."),
  "C04": dict(technique="Lean 4 proof (position invariant) + exhaustive three-way enumeration",
    text="Theorem C04_token_pos_ascii_partial: for every ASCII source every token of lexAll carries start ≤ stop ≤ length, line = 1 + number of line terminators (LF, CR, CRLF once) before its start and column = distance from the line start + 1 as defined by the position specification (Spec.posAt) — String tokens column+1, the recorded known finding; invariant proved through ws, every scanner and the block-string loop. Sources with multi-byte characters, and tree/error positions (copied from tokens by the parser model, which is tied by C01's correspondence), are covered by the three-way enumeration (lex19 contains a 2-byte character and the BOM) and random sweeps on every run."),
+ "C05": dict(technique="Lean 4 proof (grammar as data, recogniser soundness, unparser in grammar) + exhaustive token enumeration",
+   text="The October 2021 executable grammar is written as data (EBNF table `gql`, start symbol executableDocument, incl. the library's fragment variable definitions) with an inductive derivation relation; theorems: the generic recogniser is sound (a verdict 1 is a derivation: C05_recognise_sound, C05_canonical_sound), the unparser of trees produces derivable, canonical token sequences for every well-formed tree (C05_print_in_grammar, C05_print_canonical), and the grammar derives none of the rejection classes named in the property (C05_reject_classes_*: empty document, empty (), {} lists, variable in a const context, fragment named on, a string token as keyword). On every run the REAL parser's verdict is compared with the grammar and, for accepted inputs, unparse(tree Go built) must equal the input's canonical comment-free token sequence (faithful tree, source order, independence of ignored tokens via random re-renderings): exhaustively over every sequence of ≤5/≤4 (quick) or ≤6/≤5 (thorough) tokens over three 16-class alphabets, corpus, generated documents, token mutations; the parser model correspondence runs in the same check. Not proved: parser model ⇔ grammar (C05_parse_sound/complete) and recogniser completeness under its fuel. Known finding: the empty document is accepted."),
+ "C06": dict(technique="Lean 4 proof (grammar as data, recogniser soundness, unparser in grammar) + exhaustive token enumeration",
+   text="As C05 for the type-system grammar (start symbol typeSystemDocument: definitions, the seven extension forms with their 'extends something' side conditions, descriptions, repeatable, the 19 locations, const directives/defaults): C06_recognise_sound, C06_canonical_sound, C06_print_in_grammar, C06_print_canonical, C06_reject_classes_* (empty document, any variable, empty lists, extension of nothing, enum value true/false/null, operation type), and about the parser model C06_builtin_flag (every definition carries its source's BuiltIn flag) and C06_merge_is_concat (ParseSchemas = per-list concatenation in source order). Real parser vs grammar + unparse equation on every sequence of ≤4/≤5 tokens over seven alphabets, corpus, generated SDL, mutations. Known findings: empty document accepted; enum values true/false/null rejected only by the loader."),
  "C10": dict(technique="Lean 4 proof (order-irrelevance) + differential correspondence + cross-process replay",
    text="Theorems: suggestionList is invariant under permutation of its options once they are sorted, and under any permutation when there are no ties (C10_suggestions_stable, _perm_no_ties), the comparator is a total order, the model's validate depends on the schema's maps only through sorted views (C10_view_order_irrelevant) and hence returns the same result for any ordering of the types/directives/possibleTypes lists (C10_validate_deterministic); kernel-checked witness that unsorted options ARE order dependent. Tie: validator vs model incl. 'Did you mean' text (no ties tolerated since the repair). Direct: each pair validated twice on fresh parses, the same document object re-validated, and all requests replayed through 3 (quick) / 16 (thorough) independent fresh process pools with byte-for-byte comparison. One recorded known finding (re-validation of a document whose fragment spreads itself)."),
  "C12": dict(technique="Lean 4 proof (quoting/lexer round trip, writer state) + differential correspondence + direct round trip",
